@@ -10,6 +10,7 @@ TARGETS = ["theories/Properties/C02.vo"]
 PROPERTIES_FILE = "theories/Properties/C02.v"
 IMPL = "harness.props.c01_impl"
 TAGGED = True
+HARD_TIMEOUT = 400        # importer-path cases start a child interpreter
 SHARD = 400
 RULE = _c.__doc__ + (" Programs as for C01; the observable is the sequence of calls to the tracing function. "
                      "Non-trivial = program size >= 3; distinct = distinct (program, options).")
